@@ -5786,7 +5786,7 @@ static LY_ERR
 moveto_node_check(const struct lyd_node *node, enum lyxp_node_type node_type, const struct lyxp_set *set,
         const char *node_name, const struct lys_module *moveto_mod, uint32_t options)
 {
-    const struct lysc_node *schema;
+    const struct lysc_node *schema, *parent_schema;
 
     if ((node_type == LYXP_NODE_ROOT_CONFIG) || (node_type == LYXP_NODE_ROOT)) {
         assert(node_type == set->root_type);
@@ -5813,6 +5813,12 @@ moveto_node_check(const struct lyd_node *node, enum lyxp_node_type node_type, co
         if ((set->ctx == LYD_CTX(node)) && (schema->module != moveto_mod)) {
             return LY_ENOT;
         } else if ((set->ctx != LYD_CTX(node)) && strcmp(schema->module->name, moveto_mod->name)) {
+            return LY_ENOT;
+        }
+    } else if (node_name && (set->format == LY_VALUE_JSON) && lyd_parent(node)) {
+        /* unprefixed name, the module of the parent node is inherited */
+        parent_schema = lyd_node_schema(lyd_parent(node));
+        if (parent_schema && (parent_schema->module != schema->module)) {
             return LY_ENOT;
         }
     }
